@@ -132,6 +132,15 @@ impl Path {
                 && r->Ok_0.spec_len() == old(w).paths[self.key()].size
                 && (old(w).paths[self.key()].kind != NodeKind::Symlink ==> meta_of_node(r->Ok_0, old(w).paths[self.key()], old(w).files)),
     { unimplemented!() }
+    /// `Path::canonicalize` = `fs::canonicalize(self)`: same contract as the free function below
+    #[verifier::external_body]
+    pub fn canonicalize(&self, Tracked(w): Tracked<&mut World>) -> (r: std::result::Result<Path, io::Error>)
+        ensures fr_ro(*old(w), *final(w)), final(w).faults == old(w).faults + (if r is Err { 1nat } else { 0 }),
+            r is Ok ==> exists_m(old(w).paths, self.key()) && exists_m(old(w).paths, r->Ok_0.key())
+                && old(w).paths[r->Ok_0.key()].kind == old(w).paths[self.key()].tkind
+                && old(w).paths[r->Ok_0.key()].kind != NodeKind::Symlink
+                && old(w).paths[r->Ok_0.key()].inode == old(w).paths[self.key()].inode,
+    { unimplemented!() }
     #[verifier::external_body]
     pub fn exists(&self, Tracked(w): Tracked<&World>) -> (r: bool)
         ensures r == exists_m(w.paths, self.key()), r ==> w.files.contains_key(w.paths[self.key()].inode),
